@@ -532,8 +532,9 @@ def roundtrips(trace, R, model, fs, k, res):
     with _Patched(fs):
         _, exc = _call(lambda: penman.dump(R, pathlib.Path('/sim/out3.penman'), model=model, indent=indent,
                                            compact=compact))
-    if exc or fs.durable('/sim/out3.penman') != b2:
-        res.violate('roundtrip', 'dump-to-pathlib-path-differs', error=digest.canon_exc(exc) if exc else None)
+    if exc or '/sim/out3.penman' not in fs.files or fs.durable('/sim/out3.penman') != b2:
+        res.violate('roundtrip', 'dump-to-pathlib-path-differs', error=digest.canon_exc(exc) if exc else None,
+                    created='/sim/out3.penman' in fs.files, n_graphs=len(R))
         return
     if 'w' not in [m for p, m in fs.opened if p == '/sim/out2.penman']:
         res.violate('roundtrip', 'dump-path-not-opened-for-writing', opened=fs.opened)
